@@ -41,11 +41,41 @@ JudgeReencode(i, e) ==
   ELSE IF o.c12 = "na" /\ Canonical(e.args.wire) THEN B(i, << "C12" >>, "canonical datagram not accepted or not re-encodable")
   ELSE << >>
 
+\* ---- events of single payloads and payload chains (trace source S3: the repository's own tests, instrumented)
+JudgeEncodeChain(i, e) ==
+  LET o == e.obs ps == e.args.payloads IN
+  IF ~ChainEncodable(ps) THEN << >>
+  ELSE IF Crashed(o) THEN B(i, << e.prop >>, "chain encode crashed on encodable payloads")
+  ELSE IF o.err THEN B(i, << e.prop >>, "chain encode refused encodable payloads")
+  ELSE IF o.wire # EncChain(NormChain(ps)) THEN B(i, << "C05" >>, "encoded payload chain differs from the reference encoding")
+  ELSE << >>
+JudgePayloadMarshal(i, e) ==
+  LET o == e.obs p == e.args.payload IN
+  IF ~Has(p, "k") \/ p.k \notin PKindNames THEN << >>
+  ELSE IF ~PayloadEncodable(p) THEN << >>
+  ELSE IF o.err THEN B(i, << e.prop >>, "payload Marshal refused an encodable payload")
+  ELSE IF o.body # EncBodyW(PayloadPlain(NormPayload(p))) THEN B(i, << "C05" >>, "payload body differs from the reference encoding")
+  ELSE << >>
+JudgePayloadUnmarshal(i, e) ==
+  LET o == e.obs k == e.args.kind IN
+  IF k \notin PKindNames THEN << >>
+  ELSE LET r == ParseBodyW(k, 0, 0, e.args.wire) IN
+       IF ~r.ok THEN << >>
+       ELSE IF ~PayloadRepresentable(r.v) THEN << >>
+       ELSE LET d == NormPayload(PayloadStrip(r.v)) IN
+            IF ~PayloadEncodable(d) THEN << >>
+            ELSE IF o.err THEN B(i, << e.prop >>, "payload Unmarshal refused a well-formed body of the encodable domain")
+            ELSE IF o.payload # d THEN B(i, << e.prop >>, "unmarshalled payload differs from the reference parse")
+            ELSE << >>
+
 Judge(i, e) ==
   CASE e.ev = "encode" -> JudgeEncode(i, e)
     [] e.ev = "decode" -> JudgeDec(i, e, ExpectDecode(e.args.wire), "msg")
     [] e.ev = "decode_chain" -> JudgeDec(i, e, ExpectDecodeChain(e.args.first, e.args.wire), "payloads")
     [] e.ev = "reencode" -> JudgeReencode(i, e)
+    [] e.ev = "encode_chain" -> JudgeEncodeChain(i, e)
+    [] e.ev = "payload_marshal" -> JudgePayloadMarshal(i, e)
+    [] e.ev = "payload_unmarshal" -> JudgePayloadUnmarshal(i, e)
     [] e.ev = "eap_encode" -> JudgeEapEncode(i, e)
     [] e.ev = "eap_decode" -> JudgeEapDecode(i, e)
     [] e.ev = "eap_reencode" -> JudgeEapReencode(i, e)
